@@ -29,7 +29,7 @@ TKLoader     == DataKLoader
 
 VARIABLE l
 (* the generator's variables are not used here *)
-Idle  == file = "" /\ steps = <<>> /\ leaf = NoLeaf /\ inj = {} /\ style = "fresh" /\ pos = 0 /\ form = "map" /\ carrier = "plain"
+Idle  == file = "" /\ steps = <<>> /\ leaf = NoLeaf /\ inj = {} /\ style = "fresh" /\ pos = 0 /\ form = "map" /\ carrier = "plain" /\ tail = NoTail
 TInit == l = 1 /\ Idle
 TNext == l <= Len(Trace) /\ l' = l + 1 /\ UNCHANGED vars
 TSpec == TInit /\ [][TNext]_<<l, vars>>
